@@ -6,7 +6,7 @@
 # Engine A first; the Miri engine only when engine A reports nothing. Changes listed in OTHER are tried on the
 # property of the check that is documented to catch them (DESIGN §17).
 cd /verif || exit 2
-declare -A OTHER=( [C01-c]=C02 [C02-c]=C01 [C13-d]=C02 [C01-f]=C02 [C09-g]=C05 [C08-b]=C08 )
+declare -A OTHER=( [C01-c]=C02 [C02-c]=C01 [C13-d]=C02 [C01-f]=C02 [C09-g]=C05 [C08-b]=C08 [C13-i]=C02 )
 out=/verif/seeded/RESULTS.tsv
 names=("$@"); [ ${#names[@]} -eq 0 ] && names=($(ls /verif/seeded | grep -E '^C[0-9]{2}-[a-z]$'))
 for m in "${names[@]}"; do
